@@ -58,7 +58,7 @@ func ss(s string) *string { return &s }
 var intLeaves = []Expr{
 	&Ref{"NI"}, &Ref{"NI8"}, &Ref{"NI16"}, &Ref{"NI32"}, &Ref{"NI64"},
 	&Ref{"H.I"}, &Ref{"H.I8"}, &Ref{"H.I16"}, &Ref{"H.I32"}, &Ref{"H.I64"}, &Ref{"H.In.X"}, &Ref{"H.In.W"}, &Ref{"H.Pn.X"}, &Ref{"H.Pn.W"},
-	&Ref{"V.I8"}, &Ref{"V.I64"}, &Ref{"V.In.X"}, &Ref{"H.EI"}, &Ref{"H.In.DX"}, &Ref{"H.Pn.DX"}, &Ref{"V.EI"}, &Ref{"V.In.DX"},
+	&Ref{"V.I8"}, &Ref{"V.I64"}, &Ref{"V.In.X"}, &Ref{"H.EI"}, &Ref{"H.Lv"}, &Ref{"H.Dur"}, &Ref{"V.Lv"}, &Ref{"H.In.DX"}, &Ref{"H.Pn.DX"}, &Ref{"V.EI"}, &Ref{"V.In.DX"},
 	&Elem{Cont: "M64", KeyStr: ss("a")}, &Elem{Cont: "M64", KeyStr: ss("missing")}, &Elem{Cont: "PS", KeyInt: is(1)}, &Elem{Cont: "VS", KeyInt: is(0)},
 	&Elem{Cont: "MIK", KeyInt: is(1)}, &Elem{Cont: "MIK", KeyInt: is(-7)}, &Elem{Cont: "H.SL", KeyInt: is(0)}, &Elem{Cont: "H.MS", KeyStr: ss("b")},
 	&Elem{Cont: "PA", KeyInt: is(4)}, &Elem{Cont: "PM", KeyStr: ss("a")}, &Elem{Cont: "VA", KeyInt: is(0)}, &Elem{Cont: "MKU", KeyInt: is(9)},
@@ -73,7 +73,7 @@ var uintLeaves = []Expr{
 	&Elem{Cont: "MU8", KeyStr: ss("a")}, &Elem{Cont: "MU8", KeyStr: ss("nokey")}, &Elem{Cont: "PSU", KeyInt: is(0)}, &Elem{Cont: "H.AR", KeyInt: is(3)}, &Elem{Cont: "MK8", KeyInt: is(5)},
 }
 var floatLeaves = []Expr{
-	&Ref{"NF32"}, &Ref{"NF64"}, &Ref{"H.F32"}, &Ref{"H.F64"}, &Ref{"H.In.Z"}, &Ref{"H.In.F3"}, &Ref{"H.Pn.Z"}, &Ref{"V.F64"}, &Ref{"H.EF"},
+	&Ref{"NF32"}, &Ref{"NF64"}, &Ref{"H.F32"}, &Ref{"H.F64"}, &Ref{"H.In.Z"}, &Ref{"H.In.F3"}, &Ref{"H.Pn.Z"}, &Ref{"V.F64"}, &Ref{"H.EF"}, &Ref{"H.Rt"},
 	&Elem{Cont: "MF", KeyStr: ss("a")}, &Elem{Cont: "MF", KeyStr: ss("none")}, &Elem{Cont: "PSF", KeyInt: is(1)},
 	&Ref{"NNaN"}, &Ref{"NPInf"}, &Ref{"NNInf"},
 }
@@ -251,6 +251,22 @@ func (g *G) nanPair(d int) Expr {
 	return &Bin{Op: cmpOps[g.R.Intn(6)], L: n, R: o}
 }
 
+// mixedPair compares a signed integer at the edge of its range with an unsigned one at the same edge:
+// comparisons between integers are exact over the whole 64-bit range, whatever the signedness.
+func (g *G) mixedPair() Expr {
+	u := []string{"UMaxIm1", "UMaxI", "UMaxI1", "UMax", "UZ", "U32Max"}[g.R.Intn(6)]
+	v := []int64{9223372036854775807, 9223372036854775806, -1, 0, 1, -9223372036854775808, 4294967295, 4294967296}[g.R.Intn(8)]
+	var s Expr = &Lit{V: v, Text: strconv.FormatInt(v, 10)}
+	if !g.NoCalls && g.R.Intn(2) == 0 {
+		s = &CallE{Name: "idn", Args: []Expr{s}}
+	}
+	var l, r Expr = s, &Ref{u}
+	if g.R.Intn(2) == 0 {
+		l, r = r, l
+	}
+	return &Bin{Op: cmpOps[g.R.Intn(6)], L: l, R: r}
+}
+
 func (g *G) Bool(d int) Expr {
 	if d <= 0 || g.R.Intn(6) == 0 {
 		return g.BoolLeaf()
@@ -260,6 +276,9 @@ func (g *G) Bool(d int) Expr {
 	}
 	if g.R.Intn(24) == 0 {
 		return g.nanPair(d)
+	}
+	if g.R.Intn(16) == 0 {
+		return g.mixedPair()
 	}
 	switch g.R.Intn(10) {
 	case 0, 1, 2, 3:
